@@ -18,6 +18,37 @@ RAdd(a, b)   == RNorm(<< a[1] * b[2] + b[1] * a[2], a[2] * b[2] >>)
 RSub(a, b)   == RNorm(<< a[1] * b[2] - b[1] * a[2], a[2] * b[2] >>)
 RMul(a, b)   == RNorm(<< a[1] * b[1], a[2] * b[2] >>)
 RDiv(a, b)   == RNorm(R(a[1] * b[2], a[2] * b[1]))
+\* product with cross-cancellation first (keeps intermediates inside TLC's 32-bit integers)
+RMulX(a0, b0) == LET a  == RNorm(a0)
+                     b  == RNorm(b0)
+                     g1 == Gcd(a[1], b[2])
+                     g2 == Gcd(b[1], a[2])
+                     n1 == IF g1 = 0 THEN a[1] ELSE a[1] \div g1
+                     d2 == IF g1 = 0 THEN b[2] ELSE b[2] \div g1
+                     n2 == IF g2 = 0 THEN b[1] ELSE b[1] \div g2
+                     d1 == IF g2 = 0 THEN a[2] ELSE a[2] \div g2
+                 IN  << n1 * n2, d1 * d2 >>
+RDivX(a, b)  == RMulX(a, R(b[2], b[1]))
+RAbs(a)      == << Abs(a[1]), a[2] >>
+RNeg(a)      == << -a[1], a[2] >>
+RSgn(a)      == Sgn(a[1])
+\* overflow-conscious variants: least common denominator, integer parts compared first
+RAddS(a0, b0) == LET a == RNorm(a0)
+                     b == RNorm(b0)
+                     g == Gcd(a[2], b[2])
+                 IN  RNorm(<< a[1] * (b[2] \div g) + b[1] * (a[2] \div g), (a[2] \div g) * b[2] >>)
+RSubS(a, b)   == RAddS(a, RNeg(b))
+RCmpS(a0, b0) ==       \* -1, 0, 1
+  LET a  == RNorm(a0)
+      b  == RNorm(b0)
+      qa == a[1] \div a[2]
+      qb == b[1] \div b[2]
+      ra == a[1] % a[2]
+      rb == b[1] % b[2]
+  IN  IF qa < qb THEN -1 ELSE IF qa > qb THEN 1
+      ELSE Sgn(ra * b[2] - rb * a[2])
+RLeS(a, b)    == RCmpS(a, b) <= 0
+RLtS(a, b)    == RCmpS(a, b) < 0
 REq(a, b)    == a[1] * b[2] = b[1] * a[2]
 RLe(a, b)    == a[1] * b[2] <= b[1] * a[2]
 RLt(a, b)    == a[1] * b[2] <  b[1] * a[2]
